@@ -93,6 +93,15 @@ func vScenarioC05(rc *runCtx) {
 	w := rc.w
 	fo := TrzszOptions{DetectDragFile: tp.Bool("opt.drag", 500), DetectTraceLog: tp.Bool("opt.trace", 300), EnableZmodem: tp.Bool("opt.zmodem", 500), EnableOSC52: tp.Bool("opt.osc52", 500)}
 	history := tp.Pick("c05.history", 4, 3, 2, 1) // number of preceding transfers
+	// further history: a drag upload that never became a transfer (no trz on the server), or a zmodem
+	// session that ended in an error
+	extra := tp.Pick("c05.extra", 5, 2, 2)
+	if extra == 1 {
+		fo.DetectDragFile = true
+	}
+	if extra == 2 {
+		fo.EnableZmodem = true
+	}
 	cfg := vDrawConfig(tp, false)
 	cfg.timeout = 5
 	cfg.trigVersion = ""
@@ -153,6 +162,33 @@ func vScenarioC05(rc *runCtx) {
 		rc.inconclusive("a preceding transfer did not end (decided by C01/C10/C11)")
 		return
 	}
+	switch extra {
+	case 1:
+		endings = append(endings, "drag-without-trz")
+		w.Go("drag", nil, func() {
+			verifsim.Sleep(1200 * time.Millisecond)
+			x.kbd.Write([]byte(vShellQuote(spec.paths[0]) + " ")) // dropped on the terminal: one read
+			// the shell echoes what the filter types, in pieces, and has no trz
+			for k := 0; k < 300; k++ {
+				if u, _, _ := x.up[0].Snapshot(); bytes.Contains(u, []byte("trz")) && bytes.HasSuffix(u, []byte("\r")) {
+					break
+				}
+				verifsim.Sleep(10 * time.Millisecond)
+			}
+			x.down[0].Write([]byte("^C\r\n$ t"))
+			verifsim.Sleep(5 * time.Millisecond)
+			x.down[0].Write([]byte("rz"))
+			verifsim.Sleep(5 * time.Millisecond)
+			x.down[0].Write([]byte("\r\nbash: trz: command not found\r\n$ "))
+		})
+		x.settle(6 * time.Second)
+	case 2:
+		endings = append(endings, "zmodem-error")
+		w.Go("zm", nil, func() {
+			x.down[0].Write([]byte("rz waiting to receive.\r**\x18B0100000023be50\r\x8a\x11"))
+		})
+		x.settle(4 * time.Second)
+	}
 	// drain window after the last transfer, then the probe phase
 	x.settle(1500 * time.Millisecond)
 	termBefore := x.term.NSentInt()
@@ -164,6 +200,23 @@ func vScenarioC05(rc *runCtx) {
 	done := false
 	w.Go("probe", nil, func() {
 		for i := 0; i < n; i++ {
+			if extra == 2 && i == 0 {
+				// the first thing after the zmodem session is a lone Ctrl-C, before any remote output
+				kinds = append(kinds, "in:ctrl-c-first")
+				wantIn = append(wantIn, 0x03)
+				x.kbd.Write([]byte{0x03})
+				verifsim.Sleep(50 * time.Millisecond)
+				continue
+			}
+			if extra == 1 && tp.Bool("c05.echoagain", 300) {
+				// output that happens to equal the command the filter typed earlier
+				b := []byte([]string{"trz\r\n", "trz", "trz -d\r\n"}[tp.Draw("c05.echo", 3)])
+				kinds = append(kinds, "out:equals-upload-command")
+				wantOut = append(wantOut, b...)
+				x.down[0].Write(b)
+				verifsim.Sleep(20 * time.Millisecond)
+				continue
+			}
 			if tp.Bool("c05.dir", 500) {
 				b, k := vShellChunk(tp, fo.DetectTraceLog)
 				kinds = append(kinds, "out:"+k)
@@ -188,6 +241,25 @@ func vScenarioC05(rc *runCtx) {
 	term, _, _ := x.term.Snapshot()
 	up, _, _ := x.up[0].Snapshot()
 	gotOut, gotIn := term[termBefore:], up[upBefore:]
+	if extra == 2 {
+		// the zmodem session hid the cursor; the filter shows it again together with the first output
+		// after the session. That one local sequence is the end of the session, not a change to the
+		// remote bytes: it is removed before comparing (once, and only in this history).
+		seq := []byte("\x1b[?25h")
+		for from := 0; !bytes.Equal(gotOut, wantOut); {
+			i := bytes.Index(gotOut[from:], seq)
+			if i < 0 {
+				break
+			}
+			i += from
+			cand := append(append([]byte{}, gotOut[:i]...), gotOut[i+len(seq):]...)
+			if bytes.Equal(cand, wantOut) {
+				gotOut = cand
+				break
+			}
+			from = i + 1
+		}
+	}
 	if x.filter.IsTransferringFiles() {
 		rc.violate("started", "C05:started-transfer", "non-trigger traffic started a transfer; probes %v", kinds)
 		return
@@ -369,7 +441,7 @@ func vScenarioC06(rc *runCtx) {
 	for i := 0; i < n; i++ {
 		from := up.NSentInt()
 		termFrom := term.NSentInt()
-		kind := tp.Pick("c06.item", 5, 3, 2, 2, 2)
+		kind := tp.Pick("c06.item", 5, 3, 2, 2, 2, 2)
 		var chunk []byte
 		expect := 0
 		var tr *vTrig
@@ -403,6 +475,20 @@ func vScenarioC06(rc *runCtx) {
 			id := recent[tp.Draw("c06.recent", len(recent))]
 			chunk = []byte(fmt.Sprintf("\x1b[H\x1b[2Jscreen redraw\r\n\x1b7\x07::TRZSZ:TRANSFER:S:1.1.8:%s:0\r\n", id))
 			items = append(items, "redraw:"+vIDClass(id))
+		case 5: // two triggers in one read (a redraw or an earlier invocation, then a fresh one): the last one counts
+			first := vGenTrigger(tp, 700+i)
+			if len(recent) > 0 && tp.Bool("c06.firstredraw", 500) {
+				id := recent[tp.Draw("c06.recent2", len(recent))]
+				first.text = []byte(fmt.Sprintf("\x1b7\x07::TRZSZ:TRANSFER:R:1.1.8:%s:0\r\n", id))
+			}
+			tr = vGenTrigger(tp, i)
+			chunk = append(append(append([]byte{}, first.text...), vNoise(tp, tp.Draw("c06.between", 20), false)...), tr.text...)
+			tr.text = chunk
+			expect = 1
+			if vDedupID(tr.id) && seenIDs[tr.id] {
+				expect = 0
+			}
+			items = append(items, "two-in-one-read:"+tr.mode+":"+vIDClass(tr.id))
 		case 4: // tmux control-mode framing: only usable through a tunnel
 			tr = vGenTrigger(tp, i)
 			tr.prefix = nil
